@@ -375,10 +375,13 @@ func c19Mix(mx *cMix, rounds int) (sig, msg string, overlaps, unknown int) {
 }
 
 // c19Monotone is a cheap, sound consequence of linearizability for long runs (which the general checker cannot afford):
-// one writer inserts keys 0..n-1 in order and then removes them in order, announcing each operation before it starts
-// and after it returns; observers interleave Get / Len / Keys.  Whenever an observer SEES key i, all keys below i were
-// inserted before, so a later Len()/Keys() must count at least those still not announced as being removed; and Len()
-// can never exceed the number of inserts announced minus the removals completed.
+// one writer inserts keys 0..n-1 in order and then removes them in order.  Before each operation it publishes the key
+// it is about to touch and waits (bounded) until an observer is spinning on exactly that key, so that every single
+// insert / removal is a trial for the window right after the writer's critical section:
+//   - an observer that SEES key i during the insert phase knows keys 0..i are all in the map (nothing is removed yet),
+//     so the Len()/Keys() it reads next must be at least i+1 - and never more than the inserts announced;
+//   - an observer that sees key i GONE during the removal phase knows keys 0..i are all removed (nothing is inserted
+//     any more), so the length it reads next is at most n-(i+1).
 func c19Monotone(target string, n int, observers int) (string, string, int) {
 	mm := container.NewMutexMap()
 	fc := builtInFunctions.NewBuiltInFunctionContainer()
@@ -417,62 +420,91 @@ func c19Monotone(target string, n int, observers int) (string, string, int) {
 		}
 		return mm.Len()
 	}
-	var insStarted, insDone, remStarted, remDone int64
+	// cur encodes the operation in progress: 0 = none yet, i+1 = inserting key i, n+i+1 = removing key i, -1 = finished
+	var cur, armed, insStarted int64
 	var bad atomic.Value
 	var checks int64
 	var wg sync.WaitGroup
-	stop := int32(0)
 	for o := 0; o < observers; o++ {
 		wg.Add(1)
 		go func(o int) {
 			defer wg.Done()
-			i := 0
-			for atomic.LoadInt32(&stop) == 0 {
-				i = (i*7 + 3 + o) % n
-				// lower bound: everything inserted before key i and not yet announced as being removed
-				seen := get(i)
-				l := length(i%2 == 0)
-				// both announcements are read AFTER the length call returned: "no removal announced by now" means none had
-				// started while it ran, and the inserts announced by now bound the length from above
-				remAnn := atomic.LoadInt64(&remStarted)
-				insAnn := atomic.LoadInt64(&insStarted)
-				remFin := atomic.LoadInt64(&remDone)
-				_ = remFin
-				atomic.AddInt64(&checks, 1)
-				if seen {
-					low := int64(i+1) - remAnn
-					if remAnn == 0 && int64(l) < low {
-						bad.Store(fmt.Sprintf("%s: an observer saw key %d (keys are inserted in order 0..%d, none removed yet) and then read a length of %d", target, i, n-1, l))
-						return
-					}
-				}
-				if int64(l) > insAnn {
-					bad.Store(fmt.Sprintf("%s: length %d although only %d inserts had been started", target, l, insAnn))
+			last := int64(0)
+			for {
+				c := atomic.LoadInt64(&cur)
+				if c < 0 {
 					return
 				}
-				if l < 0 {
+				if c == 0 || c == last {
+					runtime.Gosched()
+					continue
+				}
+				last = c
+				inserting := c <= int64(n)
+				i := int(c - 1)
+				if !inserting {
+					i = int(c) - n - 1
+				}
+				atomic.AddInt64(&armed, 1)
+				hit := false
+				for atomic.LoadInt64(&cur) == c {
+					if get(i) == inserting {
+						hit = true
+						break
+					}
+				}
+				if !hit {
+					continue // the writer moved on before this observer saw the change: no trial
+				}
+				l := length((i+o)%2 == 0)
+				insAnn := atomic.LoadInt64(&insStarted)
+				// read AFTER the length call returned: still in the insert phase means no removal had started while it ran
+				after := atomic.LoadInt64(&cur)
+				stillInserting := after > 0 && after <= int64(n)
+				atomic.AddInt64(&checks, 1)
+				switch {
+				case inserting && stillInserting && l < i+1:
+					bad.Store(fmt.Sprintf("%s: an observer saw key %d (keys are inserted in order 0..%d, none removed yet) and then read a length of %d", target, i, n-1, l))
+					return
+				case int64(l) > insAnn:
+					bad.Store(fmt.Sprintf("%s: length %d although only %d inserts had been started", target, l, insAnn))
+					return
+				case !inserting && l > n-(i+1):
+					bad.Store(fmt.Sprintf("%s: an observer saw key %d gone (keys are removed in order 0..%d, none inserted any more) and then read a length of %d, at most %d keys can be left", target, i, n-1, l, n-(i+1)))
+					return
+				case l < 0:
 					bad.Store(fmt.Sprintf("%s: negative length %d", target, l))
 					return
 				}
 			}
 		}(o)
 	}
-	for i := 0; i < n; i++ {
-		atomic.AddInt64(&insStarted, 1)
-		insert(i)
-		atomic.AddInt64(&insDone, 1)
+	waitArmed := func() {
+		for spin := 0; spin < 2000 && atomic.LoadInt64(&armed) < 1; spin++ {
+			runtime.Gosched()
+		}
 	}
-	for i := 0; i < n; i++ {
-		atomic.AddInt64(&remStarted, 1)
+	for i := 0; i < n && bad.Load() == nil; i++ {
+		atomic.AddInt64(&insStarted, 1)
+		atomic.StoreInt64(&armed, 0)
+		atomic.StoreInt64(&cur, int64(i+1))
+		waitArmed()
+		insert(i)
+		if l := length(false); l < i+1 {
+			bad.Store(fmt.Sprintf("%s: after Insert of key %d returned the length is %d", target, i, l))
+		}
+	}
+	for i := 0; i < n && bad.Load() == nil; i++ {
+		atomic.StoreInt64(&armed, 0)
+		atomic.StoreInt64(&cur, int64(n+i+1))
+		waitArmed()
 		remove(i)
-		atomic.AddInt64(&remDone, 1)
 		// upper bound after a removal returned: checked by the writer itself
 		if l := length(false); l > n-(i+1) {
 			bad.Store(fmt.Sprintf("%s: after Remove of key %d returned (keys removed in order) the length is %d, at most %d keys can be left", target, i, l, n-(i+1)))
-			break
 		}
 	}
-	atomic.StoreInt32(&stop, 1)
+	atomic.StoreInt64(&cur, -1)
 	wg.Wait()
 	if v := bad.Load(); v != nil {
 		return target + "/length-inconsistent-with-observed-keys", v.(string), int(checks)
@@ -523,8 +555,12 @@ func genMix(rt *rapid.T) *cMix {
 // ---- live world under concurrent reconfiguration ----
 
 type liveOp struct {
-	Kind string `json:"k"` // skv create adduri update mint transfer
+	Kind string `json:"k"` // skv create adduri update mint transfer ...
 	Size int    `json:"size"`
+	// Tight: GasProvided = (charge under the expensive schedule) - 1, which the cheap schedule covers: the execution
+	// either fails (expensive schedule in force) or succeeds consuming exactly the cheap charge; an execution admitted
+	// under one schedule and charged by the other shows up as GasRemaining above GasProvided
+	Tight bool `json:"tight,omitempty"`
 }
 
 type liveCase struct {
@@ -559,6 +595,12 @@ func liveCharge(g map[string]uint64, fn string, args [][]byte) uint64 {
 		return g["ESDTNFTBurn"]
 	case vmcommon.BuiltInFunctionESDTTransfer:
 		return g["ESDTTransfer"]
+	case vmcommon.BuiltInFunctionSetUserName:
+		return g["SaveUserName"]
+	case vmcommon.BuiltInFunctionChangeOwnerAddress:
+		return g["ChangeOwnerAddress"]
+	case vmcommon.BuiltInFunctionClaimDeveloperRewards:
+		return g["ClaimDeveloperRewards"]
 	}
 	return 0
 }
@@ -590,13 +632,14 @@ func c19LiveRun(lc *liveCase, concurrent bool, baseline [][]bool) ([][]bool, str
 		}
 	}
 	fa, fb := flattenGas(gasA), flattenGas(gasB)
-	sh, err := NewShard(ShardConfig{NShards: 1, Self: 0, Gas: gasA, ActivationEpoch: 1})
+	dns := scAddr(0, 0)
+	sh, err := NewShard(ShardConfig{NShards: 1, Self: 0, Gas: gasA, ActivationEpoch: 1, DNS: []HB{HB(dns)}, EnableNameChange: true})
 	if err != nil {
 		return nil, "live/factory", err.Error(), 0
 	}
 	w := &World{Shards: []*Shard{sh}}
 	nthreads := len(lc.Threads)
-	sys := vmcommon.ESDTSCAddress
+	sys := refESDTSC
 	must := func(c *Call) error {
 		r := w.Exec(c)
 		if !r.OK() {
@@ -604,11 +647,15 @@ func c19LiveRun(lc *liveCase, concurrent bool, baseline [][]bool) ([][]bool, str
 		}
 		return nil
 	}
-	type priv struct{ a, b, ftok, ntok []byte }
+	type priv struct{ a, b, sc, ftok, ntok []byte }
 	ps := make([]priv, nthreads)
 	for t := 0; t < nthreads; t++ {
-		p := priv{a: userAddr(2*t, 0), b: userAddr(2*t+1, 0), ftok: []byte(fmt.Sprintf("FT%02d-aaaaaa", t)), ntok: []byte(fmt.Sprintf("NT%02d-bbbbbb", t))}
+		p := priv{a: userAddr(2*t, 0), b: userAddr(2*t+1, 0), sc: scAddr(1+t, 0), ftok: []byte(fmt.Sprintf("FT%02d-aaaaaa", t)), ntok: []byte(fmt.Sprintf("NT%02d-bbbbbb", t))}
 		ps[t] = p
+		// a contract of the goroutine's own, owned by its first account, with developer rewards to claim
+		sca := sh.get(p.sc)
+		sca.Owner = cp(p.a)
+		sca.Reward = new(big.Int).Lsh(big.NewInt(1), 80)
 		setup := []*Call{
 			{Fn: vmcommon.BuiltInFunctionESDTTransfer, Caller: sys, Rcv: p.a, Args: hbs(p.ftok, new(big.Int).Lsh(big.NewInt(1), 60).Bytes())},
 			{Fn: vmcommon.BuiltInFunctionSetESDTRole, Caller: sys, Rcv: p.a, Args: hbs(p.ftok, []byte(vmcommon.ESDTRoleLocalMint), []byte(vmcommon.ESDTRoleLocalBurn))},
@@ -623,11 +670,13 @@ func c19LiveRun(lc *liveCase, concurrent bool, baseline [][]bool) ([][]bool, str
 	}
 	sh.tracking, sh.concurrent = false, true
 	type obs struct {
-		fn       string
-		consumed uint64
-		a, b     uint64
-		err      error
-		pan      interface{}
+		fn                  string
+		consumed            uint64
+		a, b                uint64
+		provided, remaining uint64
+		tight               bool
+		err                 error
+		pan                 interface{}
 	}
 	results := make([][]obs, nthreads)
 	start := make(chan struct{})
@@ -669,19 +718,32 @@ func c19LiveRun(lc *liveCase, concurrent bool, baseline [][]bool) ([][]bool, str
 			case "unfreeze":
 				c = &Call{Fn: vmcommon.BuiltInFunctionESDTUnFreeze, Caller: sys, Rcv: p.b, Args: hbs(p.ntok)}
 			case "pause":
-				c = &Call{Fn: vmcommon.BuiltInFunctionESDTPause, Caller: sys, Rcv: vmcommon.SystemAccountAddress, Args: hbs([]byte(fmt.Sprintf("XX%02d-cccccc", t)))}
+				c = &Call{Fn: vmcommon.BuiltInFunctionESDTPause, Caller: sys, Rcv: refSystemAccount, Args: hbs([]byte(fmt.Sprintf("XX%02d-cccccc", t)))}
 			case "unpause":
-				c = &Call{Fn: vmcommon.BuiltInFunctionESDTUnPause, Caller: sys, Rcv: vmcommon.SystemAccountAddress, Args: hbs([]byte(fmt.Sprintf("XX%02d-cccccc", t)))}
+				c = &Call{Fn: vmcommon.BuiltInFunctionESDTUnPause, Caller: sys, Rcv: refSystemAccount, Args: hbs([]byte(fmt.Sprintf("XX%02d-cccccc", t)))}
 			case "setrole":
 				c = &Call{Fn: vmcommon.BuiltInFunctionSetESDTRole, Caller: sys, Rcv: p.b, Args: hbs(p.ftok, []byte(vmcommon.ESDTRoleLocalBurn))}
 			case "unsetrole":
 				c = &Call{Fn: vmcommon.BuiltInFunctionUnSetESDTRole, Caller: sys, Rcv: p.b, Args: hbs(p.ftok, []byte(vmcommon.ESDTRoleLocalBurn))}
+			case "setusername":
+				c = &Call{Fn: vmcommon.BuiltInFunctionSetUserName, Caller: dns, Rcv: p.b, Args: hbs(append([]byte("name"), blob...))}
+			case "changeowner":
+				c = &Call{Fn: vmcommon.BuiltInFunctionChangeOwnerAddress, Caller: p.a, Rcv: p.sc, Args: hbs(p.a)}
+			case "claim":
+				c = &Call{Fn: vmcommon.BuiltInFunctionClaimDeveloperRewards, Caller: p.a, Rcv: p.sc}
+			case "wipe":
+				c = &Call{Fn: vmcommon.BuiltInFunctionESDTWipe, Caller: sys, Rcv: p.b, Args: hbs(p.ntok)}
 			default:
 				c = &Call{Fn: vmcommon.BuiltInFunctionESDTTransfer, Caller: p.a, Rcv: p.b, Args: hbs(p.ftok, []byte{1})}
 			}
 			c.Gas = ampleGas
 			o := obs{fn: c.Fn, a: liveCharge(fa, c.Fn, args2bytes(c.Args)), b: liveCharge(fb, c.Fn, args2bytes(c.Args))}
 			priced := o.a != 0
+			if op.Tight && priced && o.b > o.a {
+				c.Gas = o.b - 1
+				o.tight = true
+			}
+			o.provided = c.Gas
 			func() {
 				defer func() { o.pan = recover() }()
 				fn, _ := sh.Container.Get(c.Fn)
@@ -689,6 +751,7 @@ func c19LiveRun(lc *liveCase, concurrent bool, baseline [][]bool) ([][]bool, str
 				out, err := fn.ProcessBuiltinFunction(snd, dst, layOut(c).in)
 				o.err = err
 				if out != nil {
+					o.remaining = out.GasRemaining
 					o.consumed = c.Gas - out.GasRemaining
 					if !priced {
 						o.a, o.b = o.consumed, o.consumed // functions without a simple closed-form charge: race / success only
@@ -787,7 +850,10 @@ func c19LiveRun(lc *liveCase, concurrent bool, baseline [][]bool) ([][]bool, str
 			if o.pan != nil {
 				return nil, "live/" + o.fn + "/panic", fmt.Sprintf("goroutine %d op %d (%s) panicked: %v", t, j, o.fn, o.pan), n
 			}
-			if ok := o.err == nil; baseline != nil && ok != baseline[t][j] {
+			if o.err == nil && o.remaining > o.provided {
+				return nil, "live/" + o.fn + "/admitted-by-one-schedule-charged-by-another", fmt.Sprintf("goroutine %d op %d (%s) was given %d gas and returned GasRemaining %d: schedule A charges %d (covered), schedule B %d (not covered) - admitted under one, charged by the other", t, j, o.fn, o.provided, o.remaining, o.a, o.b), n
+			}
+			if ok := o.err == nil; baseline != nil && !o.tight && ok != baseline[t][j] {
 				return nil, "live/" + o.fn + "/outcome-depends-on-concurrency", fmt.Sprintf("goroutine %d op %d (%s) on its private account: success=%v (error %v) under concurrent executions and reconfiguration, success=%v when the same operations run alone", t, j, o.fn, ok, o.err, baseline[t][j]), n
 			}
 			if o.err == nil && o.consumed != o.a && o.consumed != o.b {
@@ -805,7 +871,7 @@ func genLive(rt *rapid.T) *liveCase {
 		k := rapid.IntRange(1, 40).Draw(rt, "live-nops")
 		ops := make([]liveOp, k)
 		for j := range ops {
-			ops[j] = liveOp{Kind: rapid.SampledFrom([]string{"skv", "create", "adduri", "update", "mint", "transfer", "skv", "create", "adduri", "update", "skv", "create", "adduri", "update", "localburn", "burn", "addq", "nftburn", "nfttransfer", "multi", "freeze", "unfreeze", "pause", "unpause", "setrole", "unsetrole", "adduri", "update"}).Draw(rt, "live-kind"), Size: rapid.SampledFrom([]int{0, 1, 17, 200}).Draw(rt, "live-size")}
+			ops[j] = liveOp{Kind: rapid.SampledFrom([]string{"skv", "create", "adduri", "update", "mint", "transfer", "skv", "create", "adduri", "update", "skv", "create", "adduri", "update", "localburn", "burn", "addq", "nftburn", "nfttransfer", "multi", "freeze", "unfreeze", "pause", "unpause", "setrole", "unsetrole", "adduri", "update", "setusername", "changeowner", "claim", "wipe", "setusername", "mint", "localburn", "burn", "addq", "nftburn", "transfer"}).Draw(rt, "live-kind"), Size: rapid.SampledFrom([]int{0, 1, 17, 200}).Draw(rt, "live-size"), Tight: rapid.IntRange(0, 2).Draw(rt, "live-tight") == 0}
 		}
 		lc.Threads = append(lc.Threads, ops)
 	}
